@@ -21,6 +21,7 @@ package cron
 import (
 	"encoding/json"
 	"errors"
+	"fmt"
 	"io/ioutil"
 	"net/http"
 	"strings"
@@ -73,7 +74,10 @@ func (c *InternalCron) ScheduleEvent(ctx *core.Context, se *ScheduledEvent) erro
 // have the same id, so the location is part of the job's id.
 func eventJobId(ctx *core.Context, id string) string {
 	if loc := ctx.Location(); loc != nil {
-		return loc.Name + "\n" + id
+		// Names and ids can contain any character (a newline,
+		// too), so a separator alone doesn't keep
+		// ("a", "b\nc") and ("a\nb", "c") apart.
+		return fmt.Sprintf("%d:%s\n%s", len(loc.Name), loc.Name, id)
 	}
 	return id
 }
